@@ -488,6 +488,7 @@ fn cli_main(scn: &Scenario) {
 pub fn run_here(scn: &Scenario, adaptive: Option<Adaptive>) -> (History, Vec<u8>) {
     install_panic_hook();
     emulator_8086_lib::sim_hash::set_seed(scn.hash_seed);
+    emulator_8086_lib::sim_hash::clock_install(scn.clock.start_ns, scn.clock.plan.clone());
     if scn.dirty_heap {
         let mut blocks: Vec<Vec<u8>> = Vec::new();
         for _ in 0..3 {
@@ -505,6 +506,7 @@ pub fn run_here(scn: &Scenario, adaptive: Option<Adaptive>) -> (History, Vec<u8>
     let _ = take_last_panic();
     let r = std::panic::catch_unwind(std::panic::AssertUnwindSafe(|| cli_main(scn)));
     let mut console = sim_io::uninstall().expect("console vanished");
+    let clock_reads = emulator_8086_lib::sim_hash::clock_uninstall().map(|c| c.calls).unwrap_or(0);
     let end = match r {
         Ok(()) => Some(Event::Return),
         Err(p) => {
@@ -531,7 +533,7 @@ pub fn run_here(scn: &Scenario, adaptive: Option<Adaptive>) -> (History, Vec<u8>
     let events = std::mem::take(&mut shb.events);
     let raw_out = std::mem::take(&mut shb.raw_out);
     let script = std::mem::take(&mut shb.stdin);
-    let h = History { events, raw_out, stdin_consumed: shb.pos };
+    let h = History { events, raw_out, stdin_consumed: shb.pos, clock_reads };
     (h, script)
 }
 
